@@ -1343,28 +1343,35 @@ macro_rules! define_gfgen { ($typename:ident, $fieldparams:ident, $submod:ident,
                 // representation) yield d0*k in normal representation.
                 // Moreover, thalf = 2^(32*N), which is the Montgomery
                 // representation of 1/2^(32*N).
-                let mut e = (s1 * self - s0) * thalf - k;
+                let e0 = (s1 * self - s0) * thalf;
                 let mut one = Self::ZERO;
                 one.0[0] = 1;
                 let mut minus_one = Self(Self::MODULUS);
                 minus_one.0[0] &= !1u64;
                 let mut a = -100i32;
-                let mut b = -1i32;
-                for _ in 0..3 {
+                let mut b = 0i32;
+                // Candidates are tried in the order b = 0, -1, +1: when
+                // k is 0, 1 or -1, several (a, b) pairs fit the equation,
+                // and only b = 0 corresponds to the short solution.
+                for bb in [0i32, -1i32, 1i32].iter() {
+                    let e = if *bb == 0 {
+                        e0
+                    } else if *bb < 0 {
+                        e0 - k
+                    } else {
+                        e0 + k
+                    };
                     if e.iszero() != 0 {
                         a = 0;
-                        break;
-                    }
-                    if e.equals(one) != 0 {
+                    } else if e.equals(one) != 0 {
                         a = 1;
-                        break;
-                    }
-                    if e.equals(minus_one) != 0 {
+                    } else if e.equals(minus_one) != 0 {
                         a = -1;
+                    }
+                    if a != -100 {
+                        b = *bb;
                         break;
                     }
-                    e += k;
-                    b += 1;
                 }
                 assert!(a != -100);
 
